@@ -48,7 +48,7 @@ def main():
         items = mod.instances(a.tier, seed)
         it = items[a.idx]
         it.setdefault('seed', seed)
-        res = mod.run(it)
+        res = runner.run_one(mod, a.prop.lower(), it)
         res.pop('sample', None)
         print(json.dumps(res, indent=1, default=str)[:6000])
         return
@@ -59,7 +59,7 @@ def main():
         mod = importlib.import_module('rv.props.' + prop.lower())
         out = sys.stdout
         sys.stdout = open(os.devnull, 'w')
-        res = mod.run(item)
+        res = runner.run_one(mod, prop.lower(), item)
         sys.stdout = out
         hits = [w for w in res.get('violations', []) if w.get('key') == v.get('key')]
         if hits:
